@@ -33,7 +33,10 @@ for d in sorted(glob.glob("/verif/seeded/*/") + glob.glob("/verif/mutants/*/")):
     tmp = tempfile.mkdtemp(prefix="sens.")
     try:
         subprocess.check_call(["git", "-C", "/repo", "worktree", "add", "--detach", tmp + "/r", "HEAD"], stdout=subprocess.DEVNULL, stderr=subprocess.DEVNULL)
-        subprocess.check_call(["git", "-C", tmp + "/r", "apply", patch])
+        ap = subprocess.run(["git", "-C", tmp + "/r", "apply", "--3way", patch], stdout=subprocess.PIPE, stderr=subprocess.STDOUT, text=True)
+        if ap.returncode != 0:
+            print(name, "PATCH DOES NOT APPLY to /repo HEAD (run tools/rebase_seeded.py):", ap.stdout[-200:].replace("\n", " | "), flush=True)
+            continue
         for p in props:
             env = dict(os.environ, VERIF_REPO=tmp + "/r", GOFLAGS="-mod=mod", GOPROXY="off", GOSUMDB="off", GOTOOLCHAIN="local", VERIF_DIR="/verif", VERIF_NOEVIDENCE="1", VERIF_NOSHRINK=os.environ.get("SENS_SHRINK", "") == "" and "1" or "")
             cmd = ["/verif/bin/verif", "check", p, "--tier", tier]
